@@ -114,7 +114,7 @@ func litmus() {
 		}
 		failed := ""
 		var n int64
-		es := engine.Explore(engine.ExploreOpts{Bound: 2, Workers: 1}, func(c *engine.Chooser) {
+		es := engine.Explore(engine.ExploreOpts{Bound: 1, Workers: 1}, func(c *engine.Chooser) {
 			class, detail, _, _, _ := runOne(sc, c)
 			n++
 			if class != "" && failed == "" {
